@@ -4,17 +4,29 @@ import m1lib
 import molfacts
 import molgen
 import fpgen
+from props import c12_cov
 
 
 def run(ctx):
     ok, res = core.proof_step(ctx)
     rng = ctx.rng
     found = False
+    # pre-flight under a watchdog: a change that makes some run endless is reported with its input; the other streams would hang on it
+    if c12_cov.preflight(ctx):
+        ctx.notes.append('a run of the implementation did not terminate: the remaining streams of C12 were not run')
+        if not ok:
+            core.report_broken_proof(ctx, res, True)
+        return
     # tie: runs under every kind of cap, with queries at levels below / at / beyond the level reached
     cases = m1lib.gen_cases(ctx, ctx.n(60, 1200))
     # level queries on a fingerprinter that has just processed another conformer of the same molecule object
     cases += m1lib.reused_cases(ctx, 7, ctx.n(4, 12))
+    # input classes the pool lacks (long chains converging late, ions that join late or never, coincident atoms, large multipliers,
+    # no duplicate removal), queried around and far beyond the level reached (c12_cov.py, work/coverage_C12.md)
+    cases += c12_cov.tie_cases(ctx, ctx.n(12, 100))
     found |= m1lib.run_cases(ctx, cases, 'C12 model/implementation tie (capped and uncapped runs, level queries)') > 0
+    # implementation-level streams: call forms, integer types, counts / bits / masks, very large levels, reuse sequences, stepping, error paths
+    found |= c12_cov.run_streams(ctx)
     # search on the implementation: one run to L queried at every k against separate runs capped at k; -1 against runs past convergence
     stats = {'truncation_pairs': 0, 'limit_pairs': 0, 'nest_pairs': 0}
     for (name, m, cid) in molgen.pool(rng, ctx.n(40, 500)):
@@ -65,11 +77,20 @@ def run(ctx):
     ctx.coverage['input_distribution']['metamorphic'] = stats
     ctx.coverage['rule'] = ('tie: gridded cases over all caps (0..6, -1, None) with fingerprint queries at levels below, at and beyond the level reached; search: per '
                             'molecule one run to L in {4,6,8} queried at every k <= L against separate runs limited to k, nesting of identifier multisets level by level, '
-                            'and level -1/None against runs to c, c+1, c+3 where c is the converged level; non-trivial: reaches level >= 1')
+                            'and level -1/None against runs to c, c+1, c+3 where c is the converged level; coverage streams (c12_cov.py): long run (finite, -1, None; Python / NumPy '
+                            'integer; keyword / positional) against fresh runs limited to every k - states and fingerprints for random bits, masks, count / bit and call '
+                            'forms against an oracle computed from level_shells, nesting through the public getters under masks, -1 against c, c+1, c+j and levels up to '
+                            '10^30, query sequences on one object, one Fingerprinter reused over conformers / twins / foreign molecules compared with fresh ones at every '
+                            'level seen, the iterator protocol by hand, refused constructions and queries; non-trivial: reaches level >= 1')
     ctx.assumptions += ['inputs within 2^-30 of a decision threshold are tagged (harness/m1_spec.py) and skipped in the tie']
     if not ok:
         core.report_broken_proof(ctx, res, found)
 
 
 def replay(ctx, path):
+    import json
+    d = json.load(open(path))
+    if isinstance(d.get('case'), dict) and 'cov_stream' in d['case']:
+        d['_path'] = path
+        return c12_cov.replay(ctx, d)
     return m1lib.replay_case(ctx, path)
